@@ -1278,6 +1278,7 @@ def run(ctx):
         raise HarnessError('determinism self-check failed, the same schedule gave different bits twice: {}'.format(nonrepro[:3]))
 
     # ---- (d) cache histories
+    t_ph = time.time()
     hist = explore_histories(ctx, P['hist_depth'])
     evaluations += hist['transitions']
     ctx.note('cache histories to depth {}: {} states, {} transitions in {:.1f} s'.format(
@@ -1467,3 +1468,64 @@ def explore_histories(ctx, depth):
     hs = sorted(seen.values(), key=lambda h: (len(h), h))
     out['samples'] = [{'clause': 'history', 'ops': [list(o) for o in h]} for h in (hs[1:3] + hs[-2:])]
     return out
+
+
+# =====================================================================================================
+# replay of one recorded case, without the explorer
+def replay(ctx, data):
+    clause = data.get('clause')
+    print('replaying C17 case: clause={} fn={}'.format(clause, data.get('fn')))
+    problems = []
+    if clause in ('paths', 'schedule'):
+        fn = data.get('fn', 'bilform_matrix')
+        call = {'bilform_matrix': bilform_call, 'linform_vector': linform_call}.get(fn, est_call)
+        reset_globals()
+        prev = data.get('prev')
+        if prev:
+            print('  predecessor call in the same process:', describe(prev) if 'test' in prev else prev)
+            call({k: v for k, v in prev.items() if k != 'prev'})
+        spec = {k: v for k, v in data.items() if k != 'prev'}
+        print('  call:', describe(spec) if 'test' in spec else spec)
+        problems, info, val = call(spec)
+        print('  pools created: {}, workers: {}, chunk sizes: {}, APIs: {}'.format(info['pools'], info['workers'], info['chunk_sizes'], info['apis']))
+    elif clause == 'crash':
+        fn = data['fn']
+        spec = {k: data[k] for k in ('fn', 'curve', 'mesh', 'test', 'trial') if k in data}
+        d = faultfs.tmpdir()
+        try:
+            reset_globals()
+            problems, name, pristine = cold_store(fn, spec, d)
+            fault = data['fault']
+            print('  first call stored', name, 'problems:', problems)
+            if not problems and fault[0] == 'warm':
+                problems, _, _ = cache_call(fn, spec, d)
+            elif not problems and fault[0] in ('prefix', 'garbage'):
+                if fault[0] == 'garbage':
+                    gv = faultfs.garbage_variants(pristine, seed=1)
+                    import io
+                    buf = io.BytesIO()
+                    np.save(buf, np.zeros((3, 2)) if fn == 'bilform_matrix' else np.zeros(2))
+                    gv['valid-other-shape'] = buf.getvalue()
+                    f = ('garbage', fault[1], gv[fault[1]])
+                else:
+                    f = ('prefix', int(fault[1]))
+                problems, scope = crash_one(fn, spec, d, name, pristine, f, data.get('recompute') == 'pool')
+                print('  fault {} -> reader verdict {}'.format(fault, scope))
+        finally:
+            faultfs.rmtree(d)
+    elif clause == 'history':
+        viols, state, stats = run_history(data['ops'])
+        print('  history', data['ops'], '-> state', state, stats)
+        problems = [w for _, w in viols]
+    elif clause == 'cache-key':
+        names, _, _ = hist_names()
+        a, b = data['a'], data['b']
+        print('  request {} -> {}\n  request {} -> {}'.format(a, names[a], b, names[b]))
+        if names[a] == names[b]:
+            problems = ['requests {} and {} resolve to the same cache file'.format(a, b)]
+    else:
+        raise HarnessError('unknown replay clause {!r}'.format(clause))
+    CTL.reap()
+    for p in problems:
+        print('  PROBLEM:', p)
+    return not problems
